@@ -239,9 +239,14 @@ func ruleCEAgree(r *Run) {
 			if !ok || !isNilConst(bo.Y) || !((bo.Op == token.NEQ && g.True) || (bo.Op == token.EQL && !g.True)) {
 				continue
 			}
+			// the value tested is the compressor registered under the announced value and nothing else (a
+			// variable shared with the request side can still hold the request's compressor)
+			var cand *ssa.Lookup
+			all := true
 			for _, o := range p.origins(bo.X, originOpts{}) {
 				lk, ok := o.(*ssa.Lookup)
 				if !ok {
+					all = false
 					continue
 				}
 				fromComp := false
@@ -251,8 +256,13 @@ func ruleCEAgree(r *Run) {
 					}
 				}
 				if fromComp && (lk.Index == val || p.sameValue(lk.Index, val)) {
-					lookup = lk
+					cand = lk
+				} else {
+					all = false
 				}
+			}
+			if cand != nil && all {
+				lookup = cand
 			}
 		}
 		if lookup == nil {
@@ -267,10 +277,15 @@ func ruleCEAgree(r *Run) {
 			if !ok || !cc.Common().IsInvoke() || cc.Common().Method.Name() != "Compress" {
 				return
 			}
-			for _, o := range p.origins(cc.Common().Value, originOpts{}) {
-				if o == ssa.Value(lookup) {
-					compress = cc
+			only := true
+			os := p.origins(cc.Common().Value, originOpts{})
+			for _, o := range os {
+				if o != ssa.Value(lookup) {
+					only = false
 				}
+			}
+			if only && len(os) > 0 {
+				compress = cc
 			}
 		})
 		wOK := false
